@@ -117,7 +117,7 @@ Lemma instantiate_unfold c r :
         | Ok m =>
           match mapM (render c) (r_list r) with
           | Err e => Err e
-          | Ok l => Ok (Some (mkI (r_type r) id es true m l (r_vars r) (r_save r) (r_objid r) (r_noresp r)
+          | Ok l => Ok (Some (mkI (r_type r) id (drop_padding_edges es) true m l (r_vars r) (r_save r) (r_objid r) (r_noresp r)
                                   (r_url r) (r_headers r) (r_dsheet r) (r_drow r) (r_targs r)))
           end
         end
